@@ -238,7 +238,7 @@ CLAIMS = {
         "text": ("spec/Gen_C16.tla: an engine is an object bound to a model and a history is a sequence of questions to ONE engine; the answer of every "
                  "question (posterior table, MAP set, truncated factorisation) is specified as a function of (model content, question) only and no "
                  "action changes the model (lemma HistoryIndependent on every enumerated history). TLC enumerates every history of 3 questions over a "
-                 "7-question palette (hard and virtual evidence incl. the same soft-evidence variable with two likelihoods, MAP, do-queries); each is "
+                 "8-question palette (hard and virtual evidence incl. the same soft-evidence variable with two likelihoods, MAP, do-queries); each is "
                  "replayed on shared VariableElimination / BeliefPropagation / CausalInference engines under concretisations {str, int, tuple variable "
                  "names} x state-name kinds x insertion orders x hash seeds x {numpy, torch}: every answer must be the expected one (= a fresh "
                  "engine's), and after every call the model (nodes, edges, latents, CPD values, state names), the evidence dictionary and the "
